@@ -30,6 +30,14 @@ CHECKS = {
              "the same clauses on recorded real calls (sorted witnesses for monotonicity, q(q(x)) for idempotence; the "
              "float32 evaluation of the hard sigmoid/tanh affine map is modelled exactly).",
         design="7 C02, 5.2"),
+    "C03": dict(
+        spec="QPo2.tla + MC_QPo2 + Trace_QPo2",
+        text="TLC proves on every log-grid cell (binade x position class incl. sqrt(2) midpoints, epsilon floor, "
+             "max_value clamp) of every (class, bits, max_value, slope, mode) configuration that the transcribed "
+             "design emits in-range exponents that are log2-nearest/floor admissible, never above a power-of-two "
+             "max_value, monotone, idempotent; all cells are replayed on the real quantizers and every recorded call "
+             "(value, q(q(x)), min/max) is judged by the TLC trace specification (exact dyadics, float32 STE model).",
+        design="7 C03, 5.3, 5.4"),
 }
 
 
